@@ -122,14 +122,28 @@ def catalogue(tier, seed):
     # that is valid relative to the state derived from it -- only the commitment binding stops it
     add("post", [zspec(view="fork", badAt=0, badKind="bogusbase")])
     add("post", [zspec(view="fork", badAt=0, badKind="bogusbase", dials=True)], order="together", victimLen=2)
+    # ... and through the checkpoint BLOCK: the genuine base block with an extra made-up miner payout appended /
+    # with the value of its single payout inflated (neither is covered by the v2 id or by the commitment), and a
+    # fork that is valid relative to the state derived from the altered block
+    add("post", [zspec(view="fork", badAt=0, badKind="extrapayoutbase")])
+    add("post", [zspec(view="fork", badAt=0, badKind="payoutvaluebase")])
     if thorough:
         add("post", [zspec(view="fork", forkLen=103, badAt=99, badKind="bogusstate", expect="ban", dials=True)], honestLen=110, deadline=60000, order="together")
 
     # ---- SendCheckpoint answers (only above the require height)
-    for kind in ["state-revenue", "state-attestations", "state-elements", "state-work", "wrong-block", "two-payouts", "body", "malformed", "close", "stall"]:
+    for kind in ["state-revenue", "state-attestations", "state-elements", "state-work", "wrong-block", "payouts-empty", "payouts-extra", "payout-value", "payout-address",
+                 "body", "malformed", "close", "stall"]:
         add("post", [zspec(rules=[dict(rpc="SendCheckpoint", kind=kind)])])
         if thorough:
             add("post", [zspec(rules=[dict(rpc="SendCheckpoint", kind=kind, nth=2)], dials=True)], order="together")
+
+    # ---- instant sync: the victim bootstraps with syncer.RetrieveCheckpoint from the Byzantine peer; whatever is
+    # returned without an error goes into NewDBStoreAtCheckpoint unvalidated, so it must be the genuine pair
+    for kind in ["", "payouts-empty", "payouts-extra", "payout-value", "payout-address", "state-revenue", "state-elements", "wrong-block", "body", "malformed", "close"]:
+        add("post", [zspec(rules=[dict(rpc="SendCheckpoint", kind=kind)] if kind else [])], retrieve=True, order="retrieve")
+    if thorough:
+        for kind in ["payouts-empty", "payouts-extra", "payout-value", "state-work", "two-payouts"]:
+            add("mid", [zspec(rules=[dict(rpc="SendCheckpoint", kind=kind)])], retrieve=True, order="retrieve")
 
     # ---- relays issued by the Byzantine peer
     ban_relays = {"hdr-lowwork", "outline-lowwork", "outline-badtxn", "outline-height", "outline-missing-wrong", "outline-missing-none", "txset-empty"}
@@ -212,7 +226,7 @@ def run_byz(wd, binary, scs, verdict, width, timeout, tag="TestByz"):
                 m = re.search(r"(panic:.*|fatal error:.*)", text)
                 frames = re.findall(r"go\.sia\.tech/coreutils/[\w/]+\.[\w.()*]+", text)
                 return {"mismatches": [{"sig": "byz:crash:" + (frames[0] if frames else "unknown"),
-                                        "desc": "scenario %s (%s): the process died: %s" % (scs[0]["id"], scs[0]["shape"], m.group(1) if m else "?"),
+                                        "desc": "scenario %s (%s): victim process died (unrecovered panic in a syncer goroutine kills the honest node): %s" % (scs[0]["id"], scs[0]["shape"], m.group(1) if m else "?"),
                                         "replay": {"kind": "byz", "scenario": scs[0], "log": text[-3000:].splitlines()}}],
                         "counts": {"scenarios": 1, "crashed": 1}, "evaluations": 1, "distinct": 1, "samples": [], "traces": 0, "wall": 0, "notes": []}
             raise
@@ -349,6 +363,12 @@ def selftest():
     ok3b = x.exit != 0 and x.violated == "AlwaysValid"
     log("selftest 3 (model that skips ValidateBlock for blocks whose state is already stored violates AlwaysValid): %s" % ("ok" if ok3b else "FAILED"))
     ok3 = ok3 and ok3b
+    for cfg, inv, what in (("Sync_byz_ckptcount_dev.cfg", "NeverPanics", "model whose SendCheckpoint does not check the payout count: the victim process dies"),
+                           ("Sync_byz_ckptvalue_dev.cfg", "AlwaysValid", "model whose SendCheckpoint does not bind the payout value: pre-validation is void")):
+        x = vlib.run_tlc(wd, "SyncMC", cfg, workers=4, timeout=900)
+        good = x.exit != 0 and x.violated == inv
+        log("selftest 3 (%s, %s violated): %s" % (what, inv, "ok" if good else "FAILED"))
+        ok3 = ok3 and good
     # 4. the ban expectation bites: a corruption the code answers by dropping is not accepted as 'banned'
     sc = scen("self1", "mid", [zspec(rules=[dict(rpc="SendHeaders", kind="unlinked", pos=1)], expect="ban")])
     v4 = vlib.Verdict(PROP + "-selftest"); v4.findings = []
